@@ -52,7 +52,7 @@ structure Log (tab : Array NodeRec) (st st' : FState) (F : List FEv) : Prop wher
   ownS : ∀ e ∈ F, ∀ s, e.key = .inr s → s ∈ st'.seen ∧ s ∉ st.seen
   allV : ∀ k ∈ st'.visited, k ∉ st.visited → ∀ e ∈ nodeEvents tab k, e ∈ F
   allS : ∀ s ∈ st'.seen, s ∉ st.seen → FEv.free (.name s) ∈ F
-  seenIff : ∀ s, s ∈ st'.seen ↔ s ∈ st.seen ∨ (s ≠ "" ∧ ∃ k, k ∈ st'.visited ∧
+  seenIff : ∀ s, s ∈ st'.seen ↔ s ∈ st.seen ∨ (∃ k, k ∈ st'.visited ∧
     k ∉ st.visited ∧ ∃ c ks, tab.getD k .bad = .anode s c ks)
 
 theorem Log.refl (tab : Array NodeRec) (st : FState) : Log tab st st [] where
@@ -63,7 +63,7 @@ theorem Log.refl (tab : Array NodeRec) (st : FState) : Log tab st st [] where
   ownS := by simp
   allV := fun k hk hn => absurd hk hn
   allS := fun s hs hn => absurd hs hn
-  seenIff := fun s => ⟨Or.inl, fun h => h.elim id fun ⟨_, k, hk, hn, _⟩ => absurd hk hn⟩
+  seenIff := fun s => ⟨Or.inl, fun h => h.elim id fun ⟨k, hk, hn, _⟩ => absurd hk hn⟩
 
 theorem key_cases (e : FEv) : (∃ k, e.key = .inl k) ∨ (∃ s, e.key = .inr s ∧ e = .free (.name s)) := by
   cases e with
@@ -114,15 +114,15 @@ theorem Log.trans {tab : Array NodeRec} {st st1 st2 : FState} {F1 F2 : List FEv}
     intro s
     rw [h2.seenIff, h1.seenIff]
     constructor
-    · rintro ((h | ⟨hs, k, hk, hn, hc⟩) | ⟨hs, k, hk, hn, hc⟩)
+    · rintro ((h | ⟨k, hk, hn, hc⟩) | ⟨k, hk, hn, hc⟩)
       · exact .inl h
-      · exact .inr ⟨hs, k, h2.monoV hk, hn, hc⟩
-      · exact .inr ⟨hs, k, hk, fun h => hn (h1.monoV h), hc⟩
-    · rintro (h | ⟨hs, k, hk, hn, hc⟩)
+      · exact .inr ⟨k, h2.monoV hk, hn, hc⟩
+      · exact .inr ⟨k, hk, fun h => hn (h1.monoV h), hc⟩
+    · rintro (h | ⟨k, hk, hn, hc⟩)
       · exact .inl (.inl h)
       · by_cases h : k ∈ st1.visited
-        · exact .inl (.inr ⟨hs, k, h, hn, hc⟩)
-        · exact .inr ⟨hs, k, hk, h, hc⟩
+        · exact .inl (.inr ⟨k, h, hn, hc⟩)
+        · exact .inr ⟨k, hk, h, hc⟩
 
 theorem Log.perm {tab : Array NodeRec} {st st' : FState} {F F' : List FEv}
     (h : Log tab st st' F) (hp : F.Perm F') : Log tab st st' F' where
@@ -138,7 +138,7 @@ theorem Log.perm {tab : Array NodeRec} {st st' : FState} {F F' : List FEv}
 /-! ## one node -/
 
 /-- does the abstract node keep (and later free) its name? -/
-def ownsName (st : FState) (n : String) : Bool := !(n == "" || st.seen.contains n)
+def ownsName (st : FState) (n : String) : Bool := !st.seen.contains n
 
 def stepState (tab : Array NodeRec) (st : FState) (i : Nat) : FState :=
   match tab.getD i .bad with
@@ -160,7 +160,7 @@ theorem stepState_visited (tab : Array NodeRec) (st : FState) (i : Nat) :
   · rfl
 
 theorem ownsName_iff {st : FState} {n : String} :
-    ownsName st n = true ↔ n ≠ "" ∧ n ∉ st.seen := by
+    ownsName st n = true ↔ n ∉ st.seen := by
   simp [ownsName]
 
 theorem log_step {tab : Array NodeRec} {st : FState} {i : Nat} (hi : i ∉ st.visited) :
@@ -172,7 +172,7 @@ theorem log_step {tab : Array NodeRec} {st : FState} {i : Nat} (hi : i ∉ st.vi
       st.seen ⊆ st'.seen →
       (∀ e ∈ N, ∃ s, e = FEv.free (.name s) ∧ s ∈ st'.seen ∧ s ∉ st.seen) → N.Nodup →
       (∀ s ∈ st'.seen, s ∉ st.seen → FEv.free (.name s) ∈ N) →
-      (∀ s, s ∈ st'.seen ↔ s ∈ st.seen ∨ (s ≠ "" ∧ ∃ c ks, tab.getD i .bad = .anode s c ks)) →
+      (∀ s, s ∈ st'.seen ↔ s ∈ st.seen ∨ (∃ c ks, tab.getD i .bad = .anode s c ks)) →
       Log tab st st' (N ++ nodeEvents tab i) := by
     intro st' N hv hS hN hNd hall hseen
     refine ⟨by rw [hv]; exact fun _ h => List.mem_cons_of_mem _ h, hS, ?_, ?_, ?_, ?_, ?_, ?_⟩
@@ -209,20 +209,20 @@ theorem log_step {tab : Array NodeRec} {st : FState} {i : Nat} (hi : i ∉ st.vi
     · intro s
       rw [hseen]
       constructor
-      · rintro (h | ⟨h1, h2⟩)
+      · rintro (h | h2)
         · exact .inl h
-        · exact .inr ⟨h1, i, by rw [hv]; simp, hi, h2⟩
-      · rintro (h | ⟨h1, k, hk, hn, h2⟩)
+        · exact .inr ⟨i, by rw [hv]; simp, hi, h2⟩
+      · rintro (h | ⟨k, hk, hn, h2⟩)
         · exact .inl h
         · rw [hv] at hk
           rcases List.mem_cons.1 hk with rfl | hk
-          · exact .inr ⟨h1, h2⟩
+          · exact .inr h2
           · exact absurd hk hn
   unfold stepState stepEvents
   split
   · rename_i n c ks hrec
     by_cases hown : ownsName st n = true
-    · obtain ⟨hn1, hn2⟩ := ownsName_iff.1 hown
+    · have hn2 := ownsName_iff.1 hown
       simp only [hown, if_true]
       apply main
       · rfl
@@ -240,13 +240,13 @@ theorem log_step {tab : Array NodeRec} {st : FState} {i : Nat} (hi : i ∉ st.vi
         simp only [List.mem_cons]
         constructor
         · rintro (rfl | h)
-          · exact .inr ⟨hn1, c, ks, hrec⟩
+          · exact .inr ⟨c, ks, hrec⟩
           · exact .inl h
-        · rintro (h | ⟨_, c', ks', h2⟩)
+        · rintro (h | ⟨c', ks', h2⟩)
           · exact .inr h
           · rw [hrec] at h2; cases h2; exact .inl rfl
     · simp only [hown]
-      have hown' : ¬ (n ≠ "" ∧ n ∉ st.seen) := fun h => hown (ownsName_iff.2 h)
+      have hown' : ¬ (n ∉ st.seen) := fun h => hown (ownsName_iff.2 h)
       apply main
       · rfl
       · exact fun _ h => h
@@ -256,13 +256,13 @@ theorem log_step {tab : Array NodeRec} {st : FState} {i : Nat} (hi : i ∉ st.vi
       · intro s
         constructor
         · exact .inl
-        · rintro (h | ⟨h1, c', ks', h2⟩)
+        · rintro (h | ⟨c', ks', h2⟩)
           · exact h
           · have e : n = s := by rw [hrec] at h2; injection h2
-            rw [← e] at h1 ⊢
+            rw [← e]
             by_cases hs : n ∈ st.seen
             · exact hs
-            · exact absurd ⟨h1, hs⟩ hown'
+            · exact absurd hs hown'
   · rename_i hrec
     have hnot : ∀ s c ks, tab.getD i .bad ≠ .anode s c ks := fun s c ks h => hrec s c ks h
     apply main
@@ -274,7 +274,7 @@ theorem log_step {tab : Array NodeRec} {st : FState} {i : Nat} (hi : i ∉ st.vi
     · intro s
       constructor
       · exact .inl
-      · rintro (h | ⟨_, c', ks', h2⟩)
+      · rintro (h | ⟨c', ks', h2⟩)
         · exact h
         · exact absurd h2 (hnot s c' ks')
 
@@ -341,7 +341,7 @@ theorem reduce_succ_sweep (tab : Array NodeRec) (fuel : Nat) (st : FState) (i : 
         else { st with visited := i :: st.visited }) = stepState tab st i := by
       simp [stepState, h]
     simp only [reduce, h, stepEvents, kidsOf, NodeRec.children, nodeEvents]
-    have hown : (!(n == "" || ({ st with visited := i :: st.visited } : FState).seen.contains n)) =
+    have hown : (!({ st with visited := i :: st.visited } : FState).seen.contains n) =
         ownsName st n := rfl
     rw [hown]
     have hst2 : (if ownsName st n = true then
